@@ -2,26 +2,34 @@ package gowp
 
 import (
 	"fmt"
+	"sort"
 
 	"golang.org/x/tools/go/ssa"
 )
 
 // callSiteReqs: `callsite <Func> requires <expr>` clauses of the function
 // under verification, checked wherever it (or a closure / inlined callee of
-// it) calls a function of that name.
+// it) calls a function or interface method of that name.
 func (e *Engine) callSiteReqs(st *State, instr ssa.Instruction, fn *ssa.Function, args []*Val) {
+	e.callSiteReqsNamed(st, instr, stripTypeArgs(fn.Name()), fn.Signature.Recv() != nil, args)
+}
+
+func (e *Engine) callSiteReqsNamed(st *State, instr ssa.Instruction, nm string, hasRecv bool, args []*Val) {
 	if len(st.frames) == 0 || st.frames[0].contract == nil || e.quiet > 0 {
 		return
 	}
-	cls := st.frames[0].contract.CallSites[stripTypeArgs(fn.Name())]
+	cls := st.frames[0].contract.CallSites[nm]
 	if len(cls) == 0 {
 		return
+	}
+	if e.callsiteHit != nil {
+		e.callsiteHit[nm] = true
 	}
 	env := e.envFor(st, st.top())
 	env.useVars = true
 	env.old = st.frames[0].entry
 	i0 := 0
-	if fn.Signature.Recv() != nil && len(args) > 0 {
+	if hasRecv && len(args) > 0 {
 		env.names["recv"] = args[0]
 		i0 = 1
 	}
@@ -29,7 +37,31 @@ func (e *Engine) callSiteReqs(st *State, instr ssa.Instruction, fn *ssa.Function
 		env.names[fmt.Sprintf("a%d", i-i0)] = args[i]
 	}
 	for i, cl := range cls {
-		nm := stripTypeArgs(fn.Name())
 		e.emit(st, "pre", fmt.Sprintf("%s#%d", e.site(instr, "callsite@"+nm), i), e.evalBool(env, cl), "at every call of "+nm+": "+cl.Text+" "+e.posOf(instr.Pos()))
+	}
+}
+
+// callsiteUnused: a callsite clause that matched no call on any path asserts
+// nothing (vacuity guard): reported as a failed binding.
+func (e *Engine) callsiteUnused(st *State, c *Contract) {
+	var names []string
+	for nm := range c.CallSites {
+		if e.callsiteHit[nm] {
+			continue
+		}
+		// `callsite f requires false` forbids calling f: no call is the point
+		prohibition := true
+		for _, cl := range c.CallSites[nm] {
+			if cl.Text != "false" {
+				prohibition = false
+			}
+		}
+		if !prohibition {
+			names = append(names, nm)
+		}
+	}
+	sort.Strings(names)
+	for _, nm := range names {
+		e.emit(st, "pre", "callsite@"+nm+"#unused", "false", "callsite clause for "+nm+" matched no call of the verified function (the clause asserts nothing)")
 	}
 }
